@@ -230,8 +230,53 @@ impl C13 {
             o.ok()
         };
         let res: MResult = (|| {
-            // monotone in the tolerance for the actual deposit shape
+            // single-asset deposit into a constant-product pool: the deposit leg (half + proceeds) is
+            // subject to the caller's LIQUIDITY tolerance against the pool ratio after the inner swap
             let m = coins_to_map(funds);
+            if m.len() == 1 && p.pool_type == PoolType::ConstantProduct && p.assets.len() == 2 {
+                if let Some(t) = tol {
+                    let (od, oa) = m.iter().next().unwrap();
+                    let ask = p.asset_denoms.iter().find(|d| *d != od).cloned().unwrap_or_default();
+                    let half = *oa / 2;
+                    let q: Result<SimulationResponse, _> = c.w.app.wrap().query_wasm_smart(
+                        c.w.a.pm.to_string(),
+                        &QueryMsg::Simulation { offer_asset: coin(half, od.clone()), ask_asset_denom: ask.clone(), pool_identifier: pool_id.to_string() },
+                    );
+                    if let (Ok(q), true, true) = (q, *t <= Decimal::one(), p.asset_denoms.contains(od)) {
+                        let proceeds = q.return_amount.u128();
+                        let out_fees = q.protocol_fee_amount.u128() + q.burn_fee_amount.u128();
+                        let r_off = reserve(&p, od) + half;
+                        let r_ask = reserve(&p, &ask).saturating_sub(proceeds + out_fees);
+                        if half > 0 && proceeds > 0 && r_off > 0 && r_ask > 0 {
+                            let omt = Q::int(1).sub(&Q::from_decimal(*t));
+                            let dev_a = Q::ratio(half, proceeds).mul(&omt);
+                            let dev_b = Q::ratio(proceeds, half).mul(&omt);
+                            let pr_a = Q::ratio(r_off, r_ask);
+                            let pr_b = Q::ratio(r_ask, r_off);
+                            let eps = Q::ratio(1, 10u128.pow(15));
+                            let clearly_out = dev_a.cmp(&pr_a.mul(&Q::int(1).add(&eps)).add(&eps)).is_gt() || dev_b.cmp(&pr_b.mul(&Q::int(1).add(&eps)).add(&eps)).is_gt();
+                            let clearly_in = dev_a.mul(&Q::int(1).add(&eps)).add(&eps).le(&pr_a) && dev_b.mul(&Q::int(1).add(&eps)).add(&eps).le(&pr_b);
+                            let single = vec![coin(*oa, od.clone())];
+                            let ok = run(c, &single, Some(*t));
+                            let ctrl = run(c, &single, None);
+                            c.stats.bump("probe.c13.single_asset_deposit_ratio_checked");
+                            if ok && clearly_out {
+                                return Err(viol(
+                                    "C13.deposit_ratio_not_enforced",
+                                    format!("single-asset deposit of {oa}{od}: second leg ({half}, {proceeds}) vs reserves ({r_off}, {r_ask}) deviates more than the liquidity tolerance {t} but was accepted"),
+                                ));
+                            }
+                            if !ok && ctrl && clearly_in {
+                                return Err(viol(
+                                    "C13.deposit_ratio_over_strict",
+                                    format!("single-asset deposit of {oa}{od}: second leg ({half}, {proceeds}) vs reserves ({r_off}, {r_ask}) is within the liquidity tolerance {t} but was refused"),
+                                ));
+                            }
+                        }
+                    }
+                }
+            }
+            // monotone in the tolerance for the actual deposit shape
             if m.len() >= 2 {
                 let mut f: Vec<Coin> = m.iter().map(|(d, a)| coin(*a, d.clone())).collect();
                 f.sort_by(|a, b| a.denom.cmp(&b.denom));
